@@ -842,7 +842,7 @@ int SchedMain(const std::map<std::string, std::string> &a, const std::string &cm
   const uint64_t sample_mod = strtoull(get("sample-mod", "1").c_str(), nullptr, 0);
   const bool hashlog = get("hashlog", "0") != "0";
   uint64_t total = strtoull(get("max-runs", "0").c_str(), nullptr, 0);
-  if (!total) total = tier == "thorough" ? 400000 : (tier == "smoke" ? 100 : 12000);
+  if (!total) total = tier == "thorough" ? 400000 : (tier == "smoke" ? 100 : 6000);
   const int max_tasks = tier == "thorough" ? 16 : 6;
   TsanSetHooks(&Yield, &CurrentTaskId);
   TsanSetYieldTo(&YieldTo);
